@@ -7,14 +7,24 @@ package machine_test
 // (matching and stale fences, errors), quorum receipts, follower acks and waiter
 // cancellations up to the depth bound, with merging on the full exported state + oracle
 // bookkeeping. Every transition calls the real step function.
+//
+// Fence coverage (strengthened): every store/quorum result shape - success AND error - is
+// delivered with the matching fence and with each single-field deviation of the fence
+// (generation, epoch, leader epoch: older and newer; batch op id; channel key), and the
+// fences of store-append tasks the machine REALLY emitted earlier are delivered late
+// (after an abort / re-proposal / metadata change superseded them) with success and with
+// an error. A result whose fence differs from the current in-flight fence must change
+// nothing, whatever it carries.
 
 import (
 	"encoding/json"
 	"errors"
 	"fmt"
+	"reflect"
 	"sort"
 	"strconv"
 	"strings"
+	"sync/atomic"
 	"testing"
 
 	ch "github.com/WuKongIM/WuKongIM/pkg/channel"
@@ -61,13 +71,171 @@ type c06Out struct {
 	Records int
 }
 
+// c06StaleKinds are the single-field deviations of the current fence. Each one alone must
+// make a result stale (matchesInflightFence compares every field for equality).
+var c06StaleKinds = []string{"gen-newer", "gen-older", "epoch-newer", "epoch-older", "leaderepoch-newer", "leaderepoch-older", "op", "key"}
+
+func c06StaleFence(kind string, f ch.Fence) ch.Fence {
+	older := func(v uint64) uint64 {
+		if v == 0 {
+			return 7
+		}
+		return v - 1
+	}
+	switch kind {
+	case "gen-newer":
+		f.Generation++
+	case "gen-older":
+		f.Generation = older(f.Generation)
+	case "epoch-newer":
+		f.Epoch++
+	case "epoch-older":
+		f.Epoch = older(f.Epoch)
+	case "leaderepoch-newer":
+		f.LeaderEpoch++
+	case "leaderepoch-older":
+		f.LeaderEpoch = older(f.LeaderEpoch)
+	case "op":
+		f.OpID += 100
+	case "key":
+		f.ChannelKey = "c/2"
+	default:
+		panic("unknown stale kind " + kind)
+	}
+	return f
+}
+
+// c06Stats are vacuity counters (replays count too: only ">= 1" is ever asserted).
+type c06Stats struct {
+	staleErrInflight  atomic.Int64 // error result with a deviating fence while a batch is in flight
+	staleOkInflight   atomic.Int64 // success result with a deviating fence while a batch is in flight
+	lateErrInflight   atomic.Int64 // really emitted, superseded task fence + error while another batch is in flight
+	lateOkInflight    atomic.Int64
+	lateAfterMetaBump atomic.Int64 // ... where the superseded task belongs to an older (epoch, leader epoch)
+	lateAfterAbort    atomic.Int64 // ... where the superseded task belongs to the same (epoch, leader epoch), other op id
+	currentErrReplied atomic.Int64 // matching-fence error answered the in-flight waiters
+}
+
 type c06Inst struct {
 	s        *machine.ChannelState
 	metas    []c06Meta
 	thorough bool
+	stats    *c06Stats
 	// oracle bookkeeping (part of Canon)
 	outstanding map[ch.OpID]c06Out // proposals accepted and not yet answered / cancelled
-	nextMsgID   uint64
+	// fence of the store-append task the machine emitted for the batch now in flight, and the
+	// fence of the most recent task that was SUPERSEDED before its result arrived (its batch
+	// was aborted or dropped by a metadata change): that worker result is still to come, late
+	inflightTask ch.Fence
+	olderTask    ch.Fence
+	// memoised snapshot()/Canon() of the CURRENT state; dropped at the start of every Apply
+	// and restored only when the event was verified to have changed nothing
+	snap, canon string
+}
+
+// Clone deep-copies the instance (mc.Cloner): the machine is a plain struct, so a successor
+// is the copied state plus one event instead of a replay of the whole path. The copy is
+// generic (reflection over every exported field, pointers/slices/maps duplicated), so a
+// field added to ChannelState later is copied as well.
+func (in *c06Inst) Clone() mc.Instance {
+	in.Canon() // memoise on the base: every clone starts from the same state
+	cp := *in
+	ns := new(machine.ChannelState)
+	*ns = *in.s
+	c06DeepCopy(reflect.ValueOf(ns).Elem(), reflect.ValueOf(in.s).Elem())
+	cp.s = ns
+	cp.outstanding = make(map[ch.OpID]c06Out, len(in.outstanding))
+	for k, v := range in.outstanding {
+		cp.outstanding[k] = v
+	}
+	return &cp
+}
+
+// c06DeepCopy replaces every reference reachable from dst (pre-filled with a shallow copy
+// of src) by a private duplicate. Unexported fields (time.Time internals) stay shallow:
+// they are immutable values.
+func c06DeepCopy(dst, src reflect.Value) {
+	switch src.Kind() {
+	case reflect.Ptr:
+		if src.IsNil() {
+			return
+		}
+		n := reflect.New(src.Type().Elem())
+		n.Elem().Set(src.Elem())
+		c06DeepCopy(n.Elem(), src.Elem())
+		dst.Set(n)
+	case reflect.Slice:
+		if src.IsNil() {
+			return
+		}
+		n := reflect.MakeSlice(src.Type(), src.Len(), src.Len())
+		reflect.Copy(n, src)
+		if c06HasRefs(src.Type().Elem()) {
+			for i := 0; i < src.Len(); i++ {
+				c06DeepCopy(n.Index(i), src.Index(i))
+			}
+		}
+		dst.Set(n)
+	case reflect.Map:
+		if src.IsNil() {
+			return
+		}
+		n := reflect.MakeMapWithSize(src.Type(), src.Len())
+		it := src.MapRange()
+		for it.Next() {
+			v := reflect.New(src.Type().Elem()).Elem()
+			v.Set(it.Value())
+			c06DeepCopy(v, it.Value())
+			n.SetMapIndex(it.Key(), v)
+		}
+		dst.Set(n)
+	case reflect.Struct:
+		for i := 0; i < src.NumField(); i++ {
+			if dst.Field(i).CanSet() && c06HasRefs(src.Field(i).Type()) {
+				c06DeepCopy(dst.Field(i), src.Field(i))
+			}
+		}
+	case reflect.Interface, reflect.Chan, reflect.Func:
+		if !src.IsNil() {
+			panic("harness: ChannelState contains a " + src.Kind().String() + " value; extend c06DeepCopy")
+		}
+	}
+}
+
+func c06HasRefs(t reflect.Type) bool {
+	switch t.Kind() {
+	case reflect.Ptr, reflect.Slice, reflect.Map, reflect.Interface, reflect.Chan, reflect.Func:
+		return true
+	case reflect.Struct:
+		for i := 0; i < t.NumField(); i++ {
+			if t.Field(i).IsExported() && c06HasRefs(t.Field(i).Type) {
+				return true
+			}
+		}
+	case reflect.Array:
+		return c06HasRefs(t.Elem())
+	}
+	return false
+}
+
+func (in *c06Inst) noteTask(d machine.Decision) {
+	for _, t := range d.Tasks {
+		if t.Kind == machine.TaskKindStoreAppend {
+			in.inflightTask = t.Fence
+		}
+	}
+}
+
+// noteInflightGone is called after every event: when the batch in flight disappeared without
+// a result having been delivered for its task, that task is superseded and its result late.
+func (in *c06Inst) noteInflightGone(resultDelivered bool) {
+	if in.s.InflightAppend != nil || in.inflightTask == (ch.Fence{}) {
+		return
+	}
+	if !resultDelivered {
+		in.olderTask = in.inflightTask
+	}
+	in.inflightTask = ch.Fence{}
 }
 
 func (in *c06Inst) Events() []string {
@@ -82,8 +250,19 @@ func (in *c06Inst) Events() []string {
 		}
 	}
 	evs = append(evs, "propose:1:Q:2", "propose:2:L:2", "batch:9:1L1,2Q2", "batch:8:3Q1,1Q1")
-	evs = append(evs, "stored:ok", "stored:err", "stored:stale-gen", "stored:stale-epoch", "stored:stale-leaderepoch", "stored:stale-op")
-	evs = append(evs, "quorum:ok", "quorum:err", "quorum:bad-range", "quorum:hw-below-last", "quorum:stale-leaderepoch", "quorum:stale-op")
+	evs = append(evs, "stored:ok", "stored:err")
+	evs = append(evs, "quorum:ok", "quorum:err", "quorum:bad-range", "quorum:hw-below-last")
+	for _, k := range []string{"stored", "quorum"} {
+		for _, sk := range c06StaleKinds {
+			evs = append(evs, k+":ok:"+sk, k+":err:"+sk)
+		}
+	}
+	// a superseded task whose fence is IDENTICAL to the current batch's (the small op-id pool
+	// re-used an id inside one fence) is indistinguishable by design and not delivered: the
+	// reactor allocates a fresh batch op id per flush (nextBatchOpID)
+	if in.olderTask != (ch.Fence{}) && in.olderTask != in.fence() {
+		evs = append(evs, "stored-late:ok", "stored-late:err", "quorum-late:ok", "quorum-late:err")
+	}
 	for _, f := range []int{2, 3, 9} {
 		for off := uint64(1); off <= in.s.LEO; off++ {
 			evs = append(evs, fmt.Sprintf("ack:%d:%d", f, off))
@@ -97,18 +276,25 @@ func (in *c06Inst) Events() []string {
 }
 
 func (in *c06Inst) snapshot() string {
+	if in.snap != "" {
+		return in.snap
+	}
 	b, err := json.Marshal(in.s)
 	if err != nil {
 		panic(err)
 	}
-	return string(b)
+	in.snap = string(b)
+	return in.snap
 }
 
-func (in *c06Inst) records(n int) []ch.Record {
+// records builds the n records waiter op contributes. Their identifiers are a function of
+// (op, position) only - the machine never branches on them, it copies them into replies -
+// so states that differ only in WHEN a proposal was made have the same canonical form.
+func (in *c06Inst) records(op, n int) []ch.Record {
 	out := make([]ch.Record, n)
 	for i := range out {
-		in.nextMsgID++
-		out[i] = ch.Record{ID: 100 + in.nextMsgID, FromUID: "u", ClientMsgNo: "n" + strconv.FormatUint(in.nextMsgID, 10), Payload: []byte{byte(in.nextMsgID)}, SizeBytes: 1}
+		id := uint64(op*10 + i)
+		out[i] = ch.Record{ID: 100 + id, FromUID: "u", ClientMsgNo: "n" + strconv.FormatUint(id, 10), Payload: []byte{byte(id)}, SizeBytes: 1}
 	}
 	return out
 }
@@ -119,6 +305,49 @@ func (in *c06Inst) fence() ch.Fence {
 		f.OpID = in.s.InflightAppend.OpID
 	}
 	return f
+}
+
+// resultFence picks the fence a store/quorum result event carries and decides whether the
+// result is stale. "x:kind" carries the current fence, "x:kind:<stale>" a single-field
+// deviation of it, "x-late:kind" the fence of a really emitted, superseded store task.
+// Stale = the carried fence differs from the current in-flight fence in any field, or
+// nothing is in flight: such a result must change nothing (property: "results with a stale
+// fence change nothing"), whether it reports success or an error.
+func (in *c06Inst) resultFence(parts []string, cur ch.Fence) (ch.Fence, bool) {
+	s := in.s
+	carried := cur
+	late := strings.HasSuffix(parts[0], "-late")
+	switch {
+	case late:
+		carried = in.olderTask
+	case len(parts) >= 3:
+		carried = c06StaleFence(parts[2], cur)
+	}
+	stale := s.InflightAppend == nil || carried != cur
+	if !late && len(parts) >= 3 && carried == cur {
+		panic("harness: stale kind " + parts[2] + " did not change the fence")
+	}
+	if stale && s.InflightAppend != nil {
+		isErr := parts[1] == "err"
+		switch {
+		case late && isErr:
+			in.stats.lateErrInflight.Add(1)
+		case late:
+			in.stats.lateOkInflight.Add(1)
+		case isErr:
+			in.stats.staleErrInflight.Add(1)
+		default:
+			in.stats.staleOkInflight.Add(1)
+		}
+		if late {
+			if carried.Epoch != cur.Epoch || carried.LeaderEpoch != cur.LeaderEpoch {
+				in.stats.lateAfterMetaBump.Add(1)
+			} else if carried.OpID != cur.OpID {
+				in.stats.lateAfterAbort.Add(1)
+			}
+		}
+	}
+	return carried, stale
 }
 
 func modeOf(s string) ch.CommitMode {
@@ -169,6 +398,8 @@ func (in *c06Inst) Apply(evl string, _ *mc.Env) (string, error) {
 	s := in.s
 	parts := strings.Split(evl, ":")
 	before := in.snapshot()
+	canonBefore := in.canon
+	in.snap, in.canon = "", ""
 	prevHW, prevE, prevLE := s.HW, s.Epoch, s.LeaderEpoch
 	var d machine.Decision
 	obs := ""
@@ -201,7 +432,7 @@ func (in *c06Inst) Apply(evl string, _ *mc.Env) (string, error) {
 		op, _ := strconv.Atoi(parts[1])
 		n, _ := strconv.Atoi(parts[3])
 		mode := modeOf(parts[2])
-		d = s.ProposeAppend(machine.AppendCommand{OpID: ch.OpID(op), CommitMode: mode, Records: in.records(n)})
+		d = s.ProposeAppend(machine.AppendCommand{OpID: ch.OpID(op), CommitMode: mode, Records: in.records(op, n)})
 		if d.Err != nil {
 			mustBeNoop = true
 			obs = "propose-rejected:" + d.Err.Error()
@@ -210,6 +441,7 @@ func (in *c06Inst) Apply(evl string, _ *mc.Env) (string, error) {
 				return "", mc.Violatef("C06:propose-no-store-task", "%s accepted without exactly one store-append task", evl)
 			}
 			in.outstanding[ch.OpID(op)] = c06Out{Mode: mode, Records: n}
+			in.noteTask(d)
 			obs = "propose-accepted"
 		}
 	case "batch":
@@ -225,7 +457,7 @@ func (in *c06Inst) Apply(evl string, _ *mc.Env) (string, error) {
 			op := int(w[0] - '0')
 			n := int(w[2] - '0')
 			mode := modeOf(string(w[1]))
-			ws = append(ws, machine.AppendBatchWaiter{OpID: ch.OpID(op), CommitMode: mode, Records: in.records(n)})
+			ws = append(ws, machine.AppendBatchWaiter{OpID: ch.OpID(op), CommitMode: mode, Records: in.records(op, n)})
 			wms = append(wms, wm{ch.OpID(op), mode, n})
 		}
 		d = s.ProposeAppendBatch(machine.AppendBatchCommand{BatchOpID: ch.OpID(bop), Waiters: ws})
@@ -234,44 +466,35 @@ func (in *c06Inst) Apply(evl string, _ *mc.Env) (string, error) {
 			mustBeNoop = true
 			obs = "batch-rejected:" + d.Err.Error()
 		} else {
+			if len(d.Tasks) != 1 || d.Tasks[0].Kind != machine.TaskKindStoreAppend {
+				return "", mc.Violatef("C06:propose-no-store-task", "%s accepted without exactly one store-append task", evl)
+			}
 			for _, w := range wms {
 				in.outstanding[w.op] = c06Out{Mode: w.mode, Records: w.n}
 			}
+			in.noteTask(d)
 			obs = "batch-accepted"
 		}
-	case "stored":
+	case "stored", "stored-late":
 		f := in.fence()
 		n := uint64(0)
 		if s.InflightAppend != nil {
 			n = uint64(len(s.InflightAppend.Records))
 		}
 		res := machine.AppendStoredResult{Fence: f, BaseOffset: s.LEO + 1, LastOffset: s.LEO + n}
-		switch parts[1] {
-		case "ok":
-			mustBeNoop = s.InflightAppend == nil
-		case "err":
+		if parts[1] == "err" {
 			res.Err = errors.New("store failed")
-			mustBeNoop = s.InflightAppend == nil
-		case "stale-gen":
-			res.Fence.Generation++
-			mustBeNoop = true
-		case "stale-epoch":
-			res.Fence.Epoch++
-			mustBeNoop = true
-		case "stale-leaderepoch":
-			if res.Fence.LeaderEpoch == 0 {
-				res.Fence.LeaderEpoch = 7
-			} else {
-				res.Fence.LeaderEpoch--
-			}
-			mustBeNoop = true
-		case "stale-op":
-			res.Fence.OpID += 100
-			mustBeNoop = true
+		}
+		res.Fence, mustBeNoop = in.resultFence(parts, f)
+		if parts[0] == "stored-late" {
+			res.LastOffset = s.LEO + 1
 		}
 		d = s.ApplyAppendStored(res)
-		obs = fmt.Sprintf("stored-%s:replies=%d", parts[1], len(d.Replies))
-	case "quorum":
+		if res.Err != nil && !mustBeNoop && len(d.Replies) > 0 {
+			in.stats.currentErrReplied.Add(1)
+		}
+		obs = fmt.Sprintf("%s:replies=%d", strings.Join(parts, "-"), len(d.Replies))
+	case "quorum", "quorum-late":
 		f := in.fence()
 		n := uint64(0)
 		if s.InflightAppend != nil {
@@ -280,25 +503,21 @@ func (in *c06Inst) Apply(evl string, _ *mc.Env) (string, error) {
 		res := machine.QuorumCommittedResult{Fence: f, First: s.LEO + 1, Last: s.LEO + n, HW: s.LEO + n}
 		switch parts[1] {
 		case "ok":
-			mustBeNoop = s.InflightAppend == nil
 		case "err":
 			res.Err = errors.New("quorum failed")
-			mustBeNoop = s.InflightAppend == nil
 		case "bad-range":
 			res.Last++
 			res.HW++
-			mustBeNoop = s.InflightAppend == nil
 		case "hw-below-last":
 			if res.HW > 0 {
 				res.HW--
 			}
-			mustBeNoop = s.InflightAppend == nil
-		case "stale-leaderepoch":
-			res.Fence.LeaderEpoch++
-			mustBeNoop = true
-		case "stale-op":
-			res.Fence.OpID += 100
-			mustBeNoop = true
+		default:
+			panic("unknown event " + evl)
+		}
+		res.Fence, mustBeNoop = in.resultFence(parts, f)
+		if parts[0] == "quorum-late" {
+			res.Last, res.HW = s.LEO+1, s.LEO+1
 		}
 		leo0, hw0 := s.LEO, s.HW
 		d = s.ApplyQuorumCommitted(res)
@@ -312,7 +531,7 @@ func (in *c06Inst) Apply(evl string, _ *mc.Env) (string, error) {
 				}
 			}
 		}
-		obs = fmt.Sprintf("quorum-%s:replies=%d", parts[1], len(d.Replies))
+		obs = fmt.Sprintf("%s:replies=%d", strings.Join(parts, "-"), len(d.Replies))
 	case "ack":
 		fo, _ := strconv.Atoi(parts[1])
 		off, _ := strconv.ParseUint(parts[2], 10, 64)
@@ -353,6 +572,7 @@ func (in *c06Inst) Apply(evl string, _ *mc.Env) (string, error) {
 	default:
 		panic("unknown event " + evl)
 	}
+	in.noteInflightGone(parts[0] == "stored" || parts[0] == "quorum")
 	if mustBeNoop {
 		if len(d.Replies) != 0 {
 			return "", mc.Violatef("C06:stale-or-rejected-input-replied", "%s must change nothing but produced %d replies", evl, len(d.Replies))
@@ -360,6 +580,8 @@ func (in *c06Inst) Apply(evl string, _ *mc.Env) (string, error) {
 		if after := in.snapshot(); after != before {
 			return "", mc.Violatef("C06:stale-or-rejected-input-changed-state", "%s must change nothing but state changed:\n before %s\n after  %s", evl, before, after)
 		}
+		// nothing changed (state re-read and compared, no reply, bookkeeping untouched)
+		in.canon = canonBefore
 	}
 	if err := in.checkReplies(d, evl); err != nil {
 		return "", err
@@ -371,51 +593,23 @@ func (in *c06Inst) Apply(evl string, _ *mc.Env) (string, error) {
 }
 
 func (in *c06Inst) Canon() string {
+	if in.canon != "" {
+		return in.canon
+	}
 	ops := make([]int, 0, len(in.outstanding))
 	for op := range in.outstanding {
 		ops = append(ops, int(op))
 	}
 	sort.Ints(ops)
 	var b strings.Builder
-	// message ids are fresh per record and never compared: normalise them out of the key
-	st := in.snapshot()
-	b.WriteString(c06StripIDs(st))
+	b.WriteString(in.snapshot())
 	for _, op := range ops {
 		o := in.outstanding[ch.OpID(op)]
 		fmt.Fprintf(&b, "|%d:%d:%d", op, o.Mode, o.Records)
 	}
-	return b.String()
-}
-
-// c06StripIDs removes the per-record fresh identifiers (ID, ClientMsgNo, Payload) from the
-// JSON state so that states differing only in which fresh message ids were drawn merge.
-// The machine never branches on them (it only copies them into replies).
-func c06StripIDs(s string) string {
-	var v any
-	if err := json.Unmarshal([]byte(s), &v); err != nil {
-		return s
-	}
-	var walk func(x any)
-	walk = func(x any) {
-		switch t := x.(type) {
-		case map[string]any:
-			if _, ok := t["ClientMsgNo"]; ok {
-				delete(t, "ID")
-				delete(t, "ClientMsgNo")
-				delete(t, "Payload")
-			}
-			for _, c := range t {
-				walk(c)
-			}
-		case []any:
-			for _, c := range t {
-				walk(c)
-			}
-		}
-	}
-	walk(v)
-	b, _ := json.Marshal(v)
-	return string(b)
+	fmt.Fprintf(&b, "|task=%v|older=%v", in.inflightTask, in.olderTask)
+	in.canon = b.String()
+	return in.canon
 }
 
 func (in *c06Inst) Check() error {
@@ -440,21 +634,30 @@ func TestVerifC06(t *testing.T) {
 	defer r.Finish()
 	th := r.Thorough()
 	metas := c06Metas(th)
+	stats := &c06Stats{}
 	res := mc.Run(r, mc.System{
 		Name: "channel-machine",
 		New: func() mc.Instance {
-			return &c06Inst{s: machine.NewChannelState(c06Key, 1, 5), metas: metas, thorough: th, outstanding: map[ch.OpID]c06Out{}}
+			return &c06Inst{s: machine.NewChannelState(c06Key, 1, 5), metas: metas, thorough: th, stats: stats, outstanding: map[ch.OpID]c06Out{}}
 		},
 		MaxDepth:  ev.Pick(r, 6, 8),
 		MaxStates: ev.Pick(r, int64(400000), int64(6000000)),
-		Bounds:    map[string]any{"metas": len(metas), "op_ids": 3, "followers": []int{2, 3, 9}},
-		Note:      "merging on the full exported ChannelState (JSON, fresh message ids normalised) + outstanding-proposal oracle state",
+		Bounds:    map[string]any{"metas": len(metas), "op_ids": 3, "followers": []int{2, 3, 9}, "stale_fence_kinds": c06StaleKinds, "result_shapes": "stored/quorum x ok/err x {current fence, each stale kind, superseded real task fence}", "late_task_slots": 1},
+		Note:      "merging on the full exported ChannelState (JSON; record ids are a function of op id and position) + outstanding-proposal and task-fence oracle state; successors by deep copy (mc.Cloner)",
 	})
 	if r.Replay() != nil {
 		return
 	}
 	r.Guard("replies-observed", res.Outcomes >= 8, "distinct observations=%d (need >=8: accepted/rejected metas, proposals, stored/quorum results with replies)", res.Outcomes)
 	r.Guard("state-space-nontrivial", res.States >= 1000, "states=%d", res.States)
+	r.Guard("stale-error-with-batch-in-flight", stats.staleErrInflight.Load() >= 1 && stats.staleOkInflight.Load() >= 1,
+		"stale-fence results delivered while a batch is in flight: err=%d ok=%d (need >=1 each)", stats.staleErrInflight.Load(), stats.staleOkInflight.Load())
+	r.Guard("late-task-result-with-other-batch-in-flight", stats.lateErrInflight.Load() >= 1 && stats.lateOkInflight.Load() >= 1,
+		"superseded real task fences delivered while another batch is in flight: err=%d ok=%d (need >=1 each)", stats.lateErrInflight.Load(), stats.lateOkInflight.Load())
+	r.Guard("late-task-both-origins", stats.lateAfterMetaBump.Load() >= 1 && stats.lateAfterAbort.Load() >= 1,
+		"late results of a task from an older (epoch,leaderEpoch)=%d, from an aborted batch of the same fence=%d (need >=1 each)", stats.lateAfterMetaBump.Load(), stats.lateAfterAbort.Load())
+	r.Guard("current-error-answers-waiters", stats.currentErrReplied.Load() >= 1, "matching-fence error results that answered waiters=%d", stats.currentErrReplied.Load())
 	r.Assume("follower acks above LEO are rejected by the reactor guard applyLeaderProgressAck before they reach the machine; the harness mirrors that guard")
+	r.Assume("batch op ids are not re-used inside one (generation, epoch, leader epoch): the reactor allocates a fresh id per flush (nextBatchOpID), so the late result of a superseded task is only delivered when its fence differs from the current batch's")
 	r.Assume("CheckpointHW is only ever published as the current HW (reactor store-checkpoint path)")
 }
